@@ -259,6 +259,11 @@ uint64_t cmb_dataset_copy(struct cmb_dataset *tgt,
     cmb_assert_release(src->cookie == CMI_INITIALIZED);
     cmb_assert_release(tgt != NULL);
 
+    if (tgt == src) {
+        /* Already its own copy; freeing the target would lose the data */
+        return tgt->count;
+    }
+
     tgt->cookie = CMI_INITIALIZED;
     tgt->count = src->count;
     tgt->cursize = src->cursize;
